@@ -83,3 +83,11 @@ META["C19"] = dict(
           "memory image; generated fill_boxes/fill_rectangles requests compared with per-box compositing and checked for locality, "
           "also under ASan."),
     note="Trusted: harness raw pixel writer; composite32 as reference for fill_boxes. Found and fixed: S3.")
+META["C04"] = dict(
+    engine="rapidcheck + libFuzzer",
+    technique="property-based testing and coverage-guided fuzzing (rapidcheck + libFuzzer) under AddressSanitizer and PROT_NONE guard pages, per implementation chain",
+    design_ref="§4 C04",
+    text=("Generated and fuzzed scenes on exactly sized, fenced storage with edge-hugging and extreme transforms, executed under "
+          "every implementation subset of the quick set; memory errors are made visible by ASan and guard pages, and nothing "
+          "outside the composite region may change."),
+    note="Trusted: ASan, mprotect guard pages. Cannot see an over-read that stays inside the same allocation.")
